@@ -335,6 +335,194 @@ fn run_family(bytes: &[u8], ctx: &Ctx) -> CaseInfo {
     eval(nq, &goals, ctx)
 }
 
+/// Scale: a cascade of up to 400 (thorough 2000) pending constraints x(i) -> x(i+1), posted
+/// along or against the direction in which values will flow, decided by binding one variable.
+fn run_chains(bytes: &[u8], ctx: &Ctx) -> CaseInfo {
+    use crate::gen::scale;
+    let mut s = Source::new(bytes);
+    let n = scale::size(&mut s, scale::cap(ctx.tier == Tier::Thorough));
+    let x = |i: usize| Term::Var(i as VarId);
+    // global choices first (the byte string is short; per-link choices come from a small
+    // repeating pattern so that they do not exhaust it)
+    let order_kind = s.weighted(&[3, 3, 2]);
+    let at_var = match s.weighted(&[3, 3, 2]) {
+        0 => 0,
+        1 => n,
+        _ => s.below(n + 1),
+    };
+    let bind_val = s.range(-2, 3);
+    let pos_kind = s.weighted(&[4, 2, 2]);
+    let pos_any = s.below(n + 2);
+    let closing = s.weighted(&[4, 2, 2]);
+    let closing_val = s.range(-2, 3);
+    let closing_var = s.below(n + 1);
+    let closing_pos = s.below(n + 2);
+    let closing_first = s.flag(128);
+    let plen = 1 + s.below(6);
+    let pattern: Vec<(usize, i64, bool)> = (0..plen).map(|_| (s.weighted(&[4, 2, 2, 2, 1]), s.range(-3, 3), s.flag(128))).collect();
+    let mut links: Vec<Goal> = vec![];
+    let mut doublings = 0;
+    for i in 0..n {
+        let (kind, kv, sign) = pattern[i % plen];
+        let k = Term::Int(kv);
+        let g = match kind {
+            0 => Goal::Z(ZGoal::Plus(x(i), k, x(i + 1))),
+            1 => Goal::Z(ZGoal::Plus(k, x(i), x(i + 1))),
+            2 => Goal::Z(ZGoal::Plus(x(i + 1), k, x(i))),
+            3 => Goal::Z(ZGoal::Times(x(i), Term::Int(if sign { 1 } else { -1 }), x(i + 1))),
+            _ => {
+                if doublings < 12 {
+                    doublings += 1;
+                    Goal::Z(ZGoal::Times(x(i), Term::Int(2), x(i + 1)))
+                } else {
+                    Goal::Z(ZGoal::Plus(x(i), Term::Int(1), x(i + 1)))
+                }
+            }
+        };
+        links.push(g);
+    }
+    let order: Vec<usize> = match order_kind {
+        0 => (0..n).collect(),
+        1 => (0..n).rev().collect(),
+        _ => s.permutation(n),
+    };
+    let mut goals: Vec<Goal> = order.into_iter().map(|i| links[i].clone()).collect();
+    let bind = Goal::Eq(x(at_var), Term::Int(bind_val));
+    let pos = match pos_kind {
+        0 => goals.len(),
+        1 => 0,
+        _ => pos_any.min(goals.len()),
+    };
+    goals.insert(pos, bind);
+    match closing {
+        0 => {}
+        1 => {
+            let g = Goal::Z(ZGoal::Plus(x(n), Term::Int(closing_val), x(0)));
+            let pos = if closing_first { 0 } else { goals.len() };
+            goals.insert(pos, g);
+        }
+        _ => {
+            let g = Goal::Eq(x(closing_var), Term::Int(closing_val));
+            goals.insert(closing_pos.min(goals.len()), g);
+        }
+    }
+    if std::env::var("PVH_SHOW").is_ok() {
+        let p = Program { nq: n + 1, body: goals.clone() };
+        let d = p.show();
+        eprintln!("SHOW n={} {} ... {}", n, d.chars().take(150).collect::<String>(), &d[d.len().saturating_sub(120)..]);
+    }
+    let mut info = eval(n + 1, &goals, ctx);
+    truncate_sample(&mut info, 400);
+    info.class(if n >= 256 { "links>=256" } else if n >= 64 { "links>=64" } else if n >= 16 { "links>=16" } else { "links<16" });
+    info
+}
+
+/// Pending constraints before a disjunction whose branches bind and alias the operands.
+fn run_branches(bytes: &[u8], ctx: &Ctx) -> CaseInfo {
+    let mut s = Source::new(bytes);
+    let (nq, goals) = gen_goals(&mut s);
+    let nq = nq.max(2);
+    let cut = s.below(goals.len() + 1);
+    let prefix: Vec<Goal> = goals[..cut].to_vec();
+    let pool = [0i64, 1, 2, 3, -1, -2, 4, 6, 5];
+    let nb = 2 + if s.flag(60) { 1 } else { 0 };
+    let mut branches: Vec<Vec<Goal>> = vec![];
+    let mut rest: Vec<Goal> = goals[cut..].to_vec();
+    for _ in 0..nb {
+        let n = 1 + s.below(3);
+        let mut b = vec![];
+        for _ in 0..n {
+            let g = match s.weighted(&[3, 3, 2]) {
+                0 => Goal::Eq(Term::Var(s.below(nq) as VarId), Term::Int(pool[s.below(pool.len())])),
+                1 => {
+                    let a = s.below(nq);
+                    let c = (a + 1 + s.below(nq - 1)) % nq;
+                    Goal::Eq(Term::Var(a as VarId), Term::Var(c as VarId))
+                }
+                _ => match rest.pop() {
+                    Some(g) => g,
+                    None => Goal::Eq(Term::Var(s.below(nq) as VarId), Term::Int(pool[s.below(pool.len())])),
+                },
+            };
+            b.push(g);
+        }
+        branches.push(b);
+    }
+    let mut body = prefix.clone();
+    body.push(Goal::Conde(branches.clone()));
+    let p = Program { nq, body };
+    let mut info = CaseInfo::default();
+    let desc = p.show();
+    info.key = hash_str(&desc);
+    info.class("disjunction-after-pending-constraints");
+    let expects: Vec<Expect> = branches
+        .iter()
+        .map(|b| {
+            let mut g = prefix.clone();
+            g.extend(b.iter().cloned());
+            reference(nq, &g)
+        })
+        .collect();
+    let pending = prefix.iter().any(|g| matches!(g, Goal::Z(_)));
+    info.nontrivial = pending && expects.iter().filter(|e| matches!(e, Expect::One(_))).count() >= 2;
+    let out = run::run(&p, Mode::Bfs, Limits::all());
+    if ctx.want_sample {
+        info.sample = Some(json!({ "program": desc, "answers": run::show_answers(&out.answers), "expected_per_branch": format!("{:?}", expects) }));
+    }
+    match &out.end {
+        End::Panic(pi) => {
+            info.fail(format!("C19:panic:{}", pi.key()), format!("{}\n  panicked: {} at {}", desc, pi.message, pi.location));
+            return info;
+        }
+        End::Exhausted => {}
+        _ => return CaseInfo { skip: Some("impl-incomplete"), ..info },
+    }
+    // soundness per answer against the prefix constraints
+    for a in &out.answers {
+        for g in &prefix {
+            if eq_holds(g, &a.terms) == Some(false) {
+                info.fail("C19:answer-violates-prefix-constraint", format!("{}\n  answer {} violates {}", desc, run::show_answer(a), crate::ast::show_goal(g, nq)));
+                return info;
+            }
+        }
+    }
+    if expects.iter().any(|e| matches!(e, Expect::Undecided)) {
+        info.class("undecided-aliasing(soundness-only)");
+        return info;
+    }
+    let mut want: Vec<Vec<Term>> = vec![];
+    for e in &expects {
+        if let Expect::One(vals) = e {
+            let mut seen: Vec<VarId> = vec![];
+            want.push(
+                vals.iter()
+                    .map(|v| match v {
+                        Ok(n) => Term::Int(*n),
+                        Err(r) => {
+                            let i = match seen.iter().position(|x| x == r) {
+                                Some(i) => i,
+                                None => {
+                                    seen.push(*r);
+                                    seen.len() - 1
+                                }
+                            };
+                            Term::Var(i as VarId)
+                        }
+                    })
+                    .collect(),
+            );
+        }
+    }
+    let mut got: Vec<Vec<Term>> = out.answers.iter().map(|a| a.terms.clone()).collect();
+    got.sort();
+    want.sort();
+    if got != want {
+        let show = |v: &Vec<Vec<Term>>| v.iter().map(|t| format!("({})", t.iter().map(|x| crate::ast::show_term(x, crate::ast::ANSWER)).collect::<Vec<_>>().join(", "))).collect::<Vec<_>>().join("; ");
+        info.fail("C19:disjunction-answers-differ", format!("{}\n  answers  [{}]\n  expected [{}] (one per consistent branch, by the integer fixpoint of prefix + branch)", desc, show(&got), show(&want)));
+    }
+    info
+}
+
 fn chain(ctx: &Ctx) -> CaseInfo {
     // plusz(1, r, q), plusz(r, 10, p), p == 15
     let (q, r, p) = (Term::Var(0), Term::Var(1), Term::Var(2));
@@ -426,7 +614,11 @@ pub fn def() -> PropertyDef {
         id: "C19",
         rule: "1-4 query variables, 1-3 plusz/timesz constraints with operands drawn from small integers (zero and non-divisible products weighted) and the variables (aliasing allowed), plus bindings `v == n`, all in a random posting order. Oracle: integer arithmetic fixpoint (two operands known => third determined or checked; 0*r=0 leaves r free): consistent => exactly one answer with the determined integers and the other variables free; inconsistent => no answer; programs needing algebra (same unknown in two positions) get only the soundness check (every ground constraint of an answer holds) and the no-panic check. Non-trivial = a constraint posted before one of its operands is ground, or with all three unbound, or timesz with a zero operand; distinct = hash of the printed program. The exhaustive enumeration (one constraint, every groundness pattern and posting order, values -2..=2) runs in both tiers",
         assumptions: vec!["operands are variables or integer literals (constructor precondition); intermediate integers within isize"],
-        families: vec![Family { name: "clpz", max_len: 64, quick: 300_000, thorough: 6_000_000, run: run_family }],
+        families: vec![
+            Family { name: "clpz", max_len: 64, quick: 300_000, thorough: 6_000_000, run: run_family },
+            Family { name: "cascades", max_len: 96, quick: 20_000, thorough: 300_000, run: run_chains },
+            Family { name: "branches", max_len: 96, quick: 400_000, thorough: 3_000_000, run: run_branches },
+        ],
         fixed: vec![Fixed { name: "chain", run: chain }, Fixed { name: "property-text-examples", run: text_examples }],
         witnesses: vec![],
         exhaustive: Some(exhaustive),
